@@ -893,11 +893,22 @@ impl Rig {
                 if fin.timestamp != ts {
                     diffs.push(format!("timestamp: block {} / bundle argument {}", fin.timestamp, ts));
                 }
-                let unpaid_expected = if gt_tx.is_some() { 0 } else { tip.total_fees };
+                // the ticket the block actually carries (the producer may decline the pooled one)
+                let block_gt: Option<&Transaction> =
+                    fin.transactions.iter().find(|t| t.transaction_type == TransactionType::GoldenTicket);
+                let block_gt_invalid = match block_gt {
+                    Some(t) => !gt_solves(&t.data, &tip),
+                    None => false,
+                };
+                let unpaid_expected = if block_gt.is_some() { 0 } else { tip.total_fees };
                 if fin.previous_block_unpaid != unpaid_expected {
                     diffs.push(format!("previous_block_unpaid: header {} / expected {}", fin.previous_block_unpaid, unpaid_expected));
                 }
 
+                let atr_invalid_before = fin
+                    .transactions
+                    .iter()
+                    .any(|t| t.transaction_type == TransactionType::ATR && !t.validate(&self.peer.blockchain.utxoset, &self.peer.blockchain, true));
                 // --- offer to both nodes
                 let mut supply_panic = [false, false];
                 let r1 = {
@@ -941,7 +952,7 @@ impl Rig {
                 // --- the oracle
                 let n_atr = atr_ids.len();
                 let mut causes: Vec<&'static str> = vec![];
-                if gt_invalid {
+                if gt_invalid && block_gt_invalid {
                     causes.push(K_GT);
                 }
                 if pool_has_issuance && fin.id > 1 {
@@ -950,7 +961,10 @@ impl Rig {
                 if pool_has_stake && self.prod.blockchain.social_stake_requirement != 0 {
                     causes.push(K_STAKE);
                 }
-                if multiplier > 1 && (n_atr > 0 || cvc.total_rebroadcast_nolan > 0) {
+                // the payout class needs its symptom as well (a rebroadcast that does not validate, or a
+                // difference between header and recomputed values): other causes may be present in the
+                // same round
+                if multiplier > 1 && (n_atr > 0 || cvc.total_rebroadcast_nolan > 0) && (atr_invalid_before || !diffs.is_empty()) {
                     causes.push(K_CAP);
                 }
                 if outcome == Outcome::Split {
@@ -985,7 +999,7 @@ impl Rig {
                     if !diffs.is_empty() {
                         findings.push((format!("block accepted although header and recomputed values differ: {:?}", diffs), None));
                     }
-                    if gt_invalid {
+                    if block_gt_invalid {
                         findings.push(("block with an invalid golden ticket solution accepted".to_string(), None));
                     }
                     self.used.clear();
